@@ -482,6 +482,23 @@ func (d *domAn) guardRefuted(x *domFn, p *ssa.BasicBlock, succ int) (bool, strin
 				return false, p + " may be nil on the domain"
 			}
 			if ph, ok := v.(*ssa.Phi); ok {
+				// a selection among objects that are all present on the domain (Integ_i / Integ_r picked by role)
+				all, n := true, 0
+				var names []string
+				for i, e := range ph.Edges {
+					if inf, _ := x.edgeInfeasible(ph.Block().Preds[i], ph.Block()); inf {
+						continue
+					}
+					n++
+					if pe := valuePath(fn, e); pe != "" && spec.NonNil[pe] {
+						names = appendUniq(names, pe)
+						continue
+					}
+					all = false
+				}
+				if all && n > 0 {
+					return true, strings.Join(names, " / ") + " are present on the domain"
+				}
 				if ok2, why := d.loopPhiNonNil(x, ph); ok2 {
 					return true, why
 				}
